@@ -24,8 +24,9 @@ CLAIMS = {
          "np.linalg.eigh, the matrix product and spectral calculus are assumed (uninterpreted); convexity => KKT sufficiency is mathematics not "
          "re-proved. The unconditional clause (always stops within the budget for well-conditioned input) is a convergence-rate statement: "
          "NOT decided by contracts, bounded stand-in only (random SPD covariances incl. an adaptive-rho callback: stops within budget, SPD, "
-         "block-Toeplitz, no block-Toeplitz perturbation lowers the objective). Matrix-valued lambda: Lambda_class and frame conditions "
-         "proved, the class-value invariant of the Z-step only for the scalar form."),
+         "block-Toeplitz, no block-Toeplitz perturbation lowers the objective). Matrix-valued lambda: the Z-step's class-value invariant is proved "
+         "for both forms (class weight Lambda_class = what compute_lambda_sum returns, a sum over the class positions); the exit contract of "
+         "the ADMM loop is stated for the scalar form."),
  'C03': ("Proof of: exact symmetry of every re-inflated matrix (cell-wise, for all n), exactness of the floor filter (comparisons only), finite "
          "log-determinant at the three sites (slogdet; np.linalg.det is modelled with its IEEE underflow clause, which is what refuted the "
          "original log(det(.)) code), per-eigenvalue positivity over the reals.", "4/C03",
